@@ -28,6 +28,8 @@ def work(item):
     ctx, S, model = su.ctx, su.S, su.ctx.model
     ext = model.ExternalSector
     r0, _ = su.D.decide(su.cons + su.pos, ladder=False)
+    if r0 != 'sat':
+        r0, _ = su.D.decide(su.cons + su.pos, ladder=True, timeout_ms=120000)      # satisfiability witness from the nlsat rung, with more time
     rec['reach'] = r0
     fx, xr = ext['FX'], ext['XR']
     curs = [cz.Currency for cz in model.CurrencyZoneList]
